@@ -22,10 +22,10 @@
 /* ---- tagged argument for the fixed-arity printf family ---------------------------- */
 typedef struct { int kind; const char *s; long long i; unsigned long long u; } verif_arg_t; /* kind 0 none 1 string 2 signed 3 unsigned */
 static inline verif_arg_t verif_arg_s(const char *s){ verif_arg_t a; a.kind=1; a.s=s; a.i=0; a.u=0; return a; }
-static inline verif_arg_t verif_arg_i(long long i){ verif_arg_t a; a.kind=2; a.s=0; a.i=i; a.u=(unsigned long long)i; return a; }
+static inline verif_arg_t verif_arg_i(long long i){ verif_arg_t a; a.kind=2; a.s=0; a.i=i; a.u=0; return a; }
 static inline verif_arg_t verif_arg_u(unsigned long long u){ verif_arg_t a; a.kind=3; a.s=0; a.i=0; a.u=u; return a; }
 static inline verif_arg_t verif_arg_none(void){ verif_arg_t a; a.kind=0; a.s=0; a.i=0; a.u=0; return a; }
-#define VERIF_ARG(x) _Generic((x), char*: verif_arg_s, const char*: verif_arg_s, \
+#define VERIF_ARG(x) _Generic((x) + 0, char*: verif_arg_s, const char*: verif_arg_s, \
       unsigned long: verif_arg_u, unsigned long long: verif_arg_u, default: verif_arg_i)(x)
 #define VERIF_NONE verif_arg_none()
 
@@ -67,6 +67,8 @@ extern verif_str_t verif_str[VERIF_NSTR];
 extern int verif_nstr;
 void verif_register_string(const char *p, size_t len);
 void verif_ghost_init(void);
+extern int verif_snprintf_truncated, verif_snprintf_register;
+void verif_set_string(const char *p, size_t len);
 
 /* nondeterminism */
 int nondet_int(void); unsigned nondet_uint(void); size_t nondet_size_t(void); long nondet_long(void);
